@@ -3,6 +3,8 @@ package exec
 import (
 	"fmt"
 	"go/constant"
+	"sync"
+	"unsafe"
 	"go/token"
 	"go/types"
 	"strings"
@@ -45,8 +47,23 @@ type deferred struct {
 }
 
 type funcInfo struct {
-	idx map[ssa.Value]int32
-	n   int
+	idx  map[unsafe.Pointer]int32
+	n    int
+	base int  // slot of register number 0 (after parameters and free variables)
+	fast bool // register numbers verified to equal slot-base
+}
+
+// regNum reads the register number of a value-defining instruction: every such
+// type of x/tools v0.29.0 go/ssa embeds `register` first, whose layout is
+// {anInstruction{block *BasicBlock}; num int; ...}. Verified per function in info().
+func regNum(v ssa.Value) int {
+	return *(*int)(unsafe.Add(vkey(v), unsafe.Sizeof(uintptr(0))))
+}
+
+// vkey is the data pointer of an ssa.Value (all implementations are pointers),
+// a much cheaper map key than the interface itself.
+func vkey(v ssa.Value) unsafe.Pointer {
+	return (*[2]unsafe.Pointer)(unsafe.Pointer(&v))[1]
 }
 
 type frame struct {
@@ -65,13 +82,19 @@ type frame struct {
 	depth            int
 }
 
+var globalFinfo sync.Map // *ssa.Function -> *funcInfo, shared by all workers
+
 func (ex *Exec) info(fn *ssa.Function) *funcInfo {
 	if fi, ok := ex.finfo[fn]; ok {
 		return fi
 	}
-	fi := &funcInfo{idx: map[ssa.Value]int32{}}
+	if g, ok := globalFinfo.Load(fn); ok {
+		ex.finfo[fn] = g.(*funcInfo)
+		return g.(*funcInfo)
+	}
+	fi := &funcInfo{idx: map[unsafe.Pointer]int32{}}
 	add := func(v ssa.Value) {
-		fi.idx[v] = int32(fi.n)
+		fi.idx[vkey(v)] = int32(fi.n)
 		fi.n++
 	}
 	for _, p := range fn.Params {
@@ -80,15 +103,40 @@ func (ex *Exec) info(fn *ssa.Function) *funcInfo {
 	for _, fv := range fn.FreeVars {
 		add(fv)
 	}
+	fi.base = fi.n
+	fi.fast = true
 	for _, b := range fn.Blocks {
 		for _, in := range b.Instrs {
 			if v, ok := in.(ssa.Value); ok {
+				if regNum(v) != fi.n-fi.base {
+					fi.fast = false
+				}
 				add(v)
 			}
 		}
 	}
+	if g, loaded := globalFinfo.LoadOrStore(fn, fi); loaded {
+		fi = g.(*funcInfo)
+	}
 	ex.finfo[fn] = fi
 	return fi
+}
+
+var globalNames sync.Map // *ssa.Function -> string
+
+func (ex *Exec) fname(fn *ssa.Function) string {
+	if n, ok := ex.fnames[fn]; ok {
+		return n
+	}
+	var n string
+	if g, ok := globalNames.Load(fn); ok {
+		n = g.(string)
+	} else {
+		n = fn.String()
+		globalNames.Store(fn, n)
+	}
+	ex.fnames[fn] = n
+	return n
 }
 
 func (ex *Exec) pos(p token.Pos) string {
@@ -134,10 +182,7 @@ func (fr *frame) get(v ssa.Value) Value {
 	case *ssa.Builtin:
 		return v
 	}
-	i, ok := fr.fi.idx[v]
-	if !ok {
-		panic(fmt.Sprintf("get: no slot for %T %s in %s", v, v.Name(), fr.fn))
-	}
+	i := fr.slot(v)
 	r := fr.env[i]
 	if b, ok := r.(Bad); ok && !fr.ex.inInit {
 		fr.ex.unsupported("use of a value poisoned during package initialisation: " + b.Why)
@@ -145,7 +190,22 @@ func (fr *frame) get(v ssa.Value) Value {
 	return r
 }
 
-func (fr *frame) set(v ssa.Value, x Value) { fr.env[fr.fi.idx[v]] = x }
+func (fr *frame) set(v ssa.Value, x Value) { fr.env[fr.slot(v)] = x }
+
+func (fr *frame) slot(v ssa.Value) int {
+	if fr.fi.fast {
+		switch v.(type) {
+		case *ssa.Parameter, *ssa.FreeVar:
+		default:
+			return fr.fi.base + regNum(v)
+		}
+	}
+	i, ok := fr.fi.idx[vkey(v)]
+	if !ok {
+		panic(fmt.Sprintf("no slot for %T %s in %s", v, v.Name(), fr.fn))
+	}
+	return int(i)
+}
 
 func (ex *Exec) global(g *ssa.Global) *Value {
 	if p, ok := ex.globals[g]; ok {
@@ -167,7 +227,26 @@ func zeroGlobalsOK(path string) bool {
 	return path == "internal/cpu" || path == "internal/godebug" || strings.HasPrefix(path, "internal/")
 }
 
+var globalConsts sync.Map // *ssa.Const -> Value (immutable scalars and strings only)
+
 func (ex *Exec) constValue(c *ssa.Const) Value {
+	if v, ok := ex.consts[c]; ok {
+		return v
+	}
+	if g, ok := globalConsts.Load(c); ok {
+		ex.consts[c] = g
+		return g
+	}
+	v := ex.constValue1(c)
+	switch v.(type) {
+	case *sym.Term, Str:
+		globalConsts.Store(c, v)
+		ex.consts[c] = v
+	}
+	return v
+}
+
+func (ex *Exec) constValue1(c *ssa.Const) Value {
 	if c.Value == nil {
 		return zero(c.Type())
 	}
@@ -234,7 +313,7 @@ func (ex *Exec) callSSA(caller *frame, fn *ssa.Function, args []Value, env []Val
 	if fn == nil {
 		ex.runtimePanic(caller, site, "invalid memory address or nil pointer dereference (call of nil func)")
 	}
-	name := fn.String()
+	name := ex.fname(fn)
 	if fn.Parent() == nil {
 		if ex.inInit && isInitFunc(fn) {
 			if fn.Pkg != nil && ex.initDone[fn.Pkg] {
@@ -244,7 +323,7 @@ func (ex *Exec) callSSA(caller *frame, fn *ssa.Function, args []Value, env []Val
 		if rep, ok := ex.replacement(name); ok && !ex.inInit {
 			ex.noteFunc(rep, "replacement for "+name)
 			fn = rep
-			name = fn.String()
+			name = ex.fname(fn)
 		}
 		if in, ok := intrinsics[name]; ok {
 			ex.noteIntrinsic(name)
@@ -276,10 +355,10 @@ func (ex *Exec) callSSA(caller *frame, fn *ssa.Function, args []Value, env []Val
 		}
 	}
 	for i, p := range fn.Params {
-		fr.env[fi.idx[p]] = args[i]
+		fr.env[fi.idx[vkey(p)]] = args[i]
 	}
 	for i, fv := range fn.FreeVars {
-		fr.env[fi.idx[fv]] = env[i]
+		fr.env[fi.idx[vkey(fv)]] = env[i]
 	}
 	fr.block = fn.Blocks[0]
 	for fr.block != nil {
